@@ -460,14 +460,17 @@ type diffEnv struct {
 	dead     bool
 	steps    int
 	// coverage tuple hook
-	cover func(args []string, priorType string, outcome string)
+	cover   func(args []string, priorType string, outcome string)
 	noState bool // skip state comparison
 	obsDB   int
 	// additional connections (index 1..) with their own model sessions; index 0 is cn/sess
 	cns      []*wire.Conn
 	sessions []*model.Session
-	dbsSeen  map[int]bool        // databases that were ever selected or written to: all of them are dumped
-	prevs    map[int]*dbDump     // previous dump per database (M-inert)
+	// lastDiverged: the last step diverged (reply or state, known finding or not); scripts use it to give the
+	// connection a fresh session, because session state (MULTI, selected db) cannot be resynchronised from dumps
+	lastDiverged bool
+	dbsSeen      map[int]bool    // databases that were ever selected or written to: all of them are dumped
+	prevs        map[int]*dbDump // previous dump per database (M-inert)
 }
 
 // addConn opens another connection to the same emulator (its own session) and returns its index.
@@ -477,6 +480,7 @@ func (d *diffEnv) addConn() (int, error) {
 		return 0, err
 	}
 	cn.Timeout = 20 * time.Second
+	cn.Proto = 3
 	if d.cns == nil {
 		d.cns = []*wire.Conn{d.cn}
 		d.sessions = []*model.Session{d.sess}
@@ -494,6 +498,7 @@ func (d *diffEnv) reconnect(i int) error {
 		return err
 	}
 	cn.Timeout = 20 * time.Second
+	cn.Proto = 3
 	if d.cns == nil {
 		d.cns = []*wire.Conn{d.cn}
 		d.sessions = []*model.Session{d.sess}
@@ -522,6 +527,7 @@ func newDiffEnv(r *verdict.Run, c *host.Child, universe []string) (*diffEnv, err
 	}
 	cn.Timeout = 20 * time.Second
 	obs.Timeout = 20 * time.Second
+	cn.Proto = 3 // replies are parsed leniently (both protocols); RESP2 purity is decided by C15
 	return &diffEnv{r: r, child: c, emu: e, cn: cn, obs: obs, m: model.New(), sess: model.NewSession(), universe: universe, monitor: "model"}, nil
 }
 
@@ -588,6 +594,9 @@ func (d *diffEnv) stepOn(ci int, args []string) (resp.Value, bool) {
 			cs, msg := host.CrashSignature(d.child.StderrHead(100000))
 			sig = d.monitor + "/" + tag + "/crash/" + cs
 			why += "\nprocess died: " + msg + "\n" + headLines(d.child.StderrHead(100000), 30)
+		} else if err == wire.ErrTimeout {
+			// the command hangs: take a goroutine dump (this ends the child)
+			why += "\ngoroutines blocked on a mutex:\n" + stallSummary(d.child.SigQuitDump())
 		}
 		r.Report(sig, why, d.replay(nil))
 		return got, false
@@ -595,9 +604,6 @@ func (d *diffEnv) stepOn(ci int, args []string) (resp.Value, bool) {
 	d.log = append(d.log, stepRecord{args, got.String(), exp.String()})
 	if len(d.log) > 400 {
 		d.log = d.log[len(d.log)-400:]
-	}
-	if sess.Proto != cn.Proto && (sess.Proto == 2 || sess.Proto == 3) {
-		cn.Proto = sess.Proto
 	}
 	if ci > 0 {
 		d.log[len(d.log)-1].Cmd = append([]string{fmt.Sprintf("[conn %d]", ci)}, args...)
@@ -657,6 +663,7 @@ func (d *diffEnv) stepOn(ci int, args []string) (resp.Value, bool) {
 			return got, false
 		}
 	}
+	d.lastDiverged = diverged
 	return got, true
 }
 
